@@ -641,6 +641,16 @@ func (c *core) processAcceptedInternalTransactions(roundReceived int, receipts [
 			case hg.PEER_ADD:
 				validators = validators.WithNewPeer(&txBody.Peer)
 				currentPeers = currentPeers.WithNewPeer(&txBody.Peer)
+
+				// Update AcceptedRound if adding self. A node that left and
+				// joined again replays both its removal and its new join when
+				// it bootstraps; without this the replayed RemovedRound would
+				// remain greater than AcceptedRound and the node would suspend
+				// itself as evicted right after the restart.
+				if txBody.Peer.ID() == c.validator.ID() && effectiveRound > c.acceptedRound {
+					c.logger.Debugf("Update AcceptedRound from %d to %d", c.acceptedRound, effectiveRound)
+					c.acceptedRound = effectiveRound
+				}
 			case hg.PEER_REMOVE:
 				validators = validators.WithRemovedPeer(&txBody.Peer)
 				currentPeers = currentPeers.WithRemovedPeer(&txBody.Peer)
